@@ -1,7 +1,7 @@
 #!/bin/bash
 # runs every check's thorough tier once (timing + sanity); one line per check
 cd "$(dirname "$0")/.."
-for id in ${1:-C01 C02 C03 C04 C05 C06 C07 C08 C09 C10 C11 C12 C13 C14 C15 C16 C17 C18}; do
+for id in ${*:-C01 C02 C03 C04 C05 C06 C07 C08 C09 C10 C11 C12 C13 C14 C15 C16 C17 C18}; do
   t0=$(date +%s)
   ./check $id --tier thorough > /tmp/thorough_$$.log 2>&1; rc=$?
   t1=$(date +%s)
